@@ -641,9 +641,19 @@ func (b *BaseStore) Sync(ctx context.Context, heads []ipfslog.Entry) error {
 		return nil
 	}
 
+	// only heads that passed the checks below go to the replicator
+	verified := make([]ipfslog.Entry, 0, len(heads))
+
 	for _, h := range heads {
-		if h == nil {
+		if h == nil || !h.Defined() {
 			b.Logger().Debug("warning: Given input entry was 'null'.")
+			continue
+		}
+
+		// heads come from the network: one that lacks the parts used below cannot be a
+		// valid entry and must not be dereferenced
+		if h.GetIdentity() == nil || h.GetIdentity().Signatures == nil || h.GetClock() == nil || !h.GetClock().Defined() {
+			b.Logger().Debug("warning: Given input entry is incomplete and was discarded.")
 			continue
 		}
 
@@ -679,9 +689,12 @@ func (b *BaseStore) Sync(ctx context.Context, heads []ipfslog.Entry) error {
 		}
 
 		span.AddEvent("store-sync-head-verified")
+		verified = append(verified, h)
 	}
 
-	go b.Replicator().Load(ctx, heads)
+	if len(verified) > 0 {
+		go b.Replicator().Load(ctx, verified)
+	}
 
 	return nil
 }
